@@ -48,9 +48,18 @@ Check(p, i2, s2) ==
            bad == {o \in outs : ~(o \in DOMAIN i2.sig /\ i2.sig[o].t = KindMap[s2.obj[o].t] /\ BitsAgree(s2.obj[o], i2.sig[o]))}
        IN IF bad = {} THEN "none" ELSE "mismatch:" \o (CHOOSE o \in bad : TRUE)
 
+\* Power-up: the reset inputs are driven inactive from time zero (an input port left undefined during the initialisation
+\* phase is outside the input space of the properties: `not (rst = '1')` holds for 'U', so an active-low asynchronous reset
+\* branch - and its on_reset actions - would run during initialisation).  Reset asserted from the first step on is explored.
+PowerUp(p) ==
+  LET E == Dn(p).adl
+      rs == {c \in 1..Len(E.ctxs) : E.ctxs[c].kind = "seq" /\ ~CIsNone(E.ctxs[c].reset)}
+  IN [n \in {E.ctxs[c].reset.port : c \in rs} |->
+        VSl(IF E.ctxs[CHOOSE c \in rs : E.ctxs[c].reset.port = n].reset.active_low = 1 THEN 1 ELSE 0)]
+
 Init ==
   /\ pid \in 1..N
-  /\ impl = InitState(FlatOf[pid])
+  /\ impl = InitState([FlatOf[pid] EXCEPT !.sigs = PowerUp(pid) @@ @])
   /\ spec = SpecInit(Dn(pid).adl, SumOf[pid])
   /\ err = (IF impl.err # "" THEN "impl:" \o impl.err ELSE "none")
   /\ last = CEmptyFn
